@@ -69,6 +69,11 @@ def some_edge_target(fn, cs):
         if fn.term(b)['k'] != 'switch':
             continue
         e = fn.switch_expr(b)
+        if e.kind == 'call' and e.op.rsplit('::', 1)[-1] in ('is_some', 'is_none') and 'ption' in e.op and any(c.pos == cs.pos for c in e.calls()):
+            # `if popped.is_some() { cleanup }`: the true (is_none: false) edge is the Some edge
+            be = fn.bool_edges(b)
+            if be is not None:
+                return b, (be[1] if e.op.endswith('is_some') else be[0])
         if e.kind != 'discr':
             continue
         if not any(c.pos == cs.pos for c in e.calls()):
